@@ -4,7 +4,7 @@
    positivity clamp fires, odd symmetry of the per-face slope limiter, reflecting walls (mirror ghost state),
    non-negativity after the update (R) and of the clamp on binary64 (Coq.Floats specification). *)
 From Coq Require Import Reals Lra Lia Bool ZArith List Psatz Floats Permutation.
-From CMI Require Import Common.Scalar Cxx.C05_Defs Cxx.C04_Defs Cxx.C04_FluxDefs.
+From CMI Require Import Common.Scalar Cxx.C05_Defs Cxx.C05_Proofs Cxx.C04_Defs Cxx.C04_FluxDefs Cxx.C04_Faces.
 Import ListNotations.
 Local Open Scope R_scope.
 
@@ -354,21 +354,21 @@ Section RInst.
   Section Reflective.
     (* which wall states the Riemann function treats as a mirror problem without mass/energy exchange; for HLLC this is
        C05_hllc_mirror_no_mass_energy_flux: gas not running into the wall faster than 1.5 sound speeds *)
-    Variable wall_ok : R -> rvec -> R -> rvec -> Prop.
-    Hypothesis riemann_mirror : forall i rho v P n, (0 <= i <= 2)%Z -> wall_ok rho v P n ->
+    Variable wall_ok : Z -> R -> rvec -> R -> rvec -> Prop.      (* axis, rho, v, P, outward normal *)
+    Hypothesis riemann_mirror : forall i rho v P n, (0 <= i <= 2)%Z -> wall_ok i rho v P n ->
       let Fl := riemann rho v P rho (mirror_vec i v) P n in fst (fst Fl) = 0 /\ snd Fl = 0.
     Hypothesis Hreflective : bkind = 2%Z.
 
     Definition wall_dx (a sgn : Z) : R := if (sgn <? 0)%Z then sneg RS (vget R a dxs) else vget R a dxs.
     Definition wall_admissible (c : rcell) (a sgn : Z) : Prop :=
       let '(rho, v, P, _, _, _) := ghost_input R RS 2 a c (wall_dx a sgn) in
-      wall_ok rho v P (vset R a (vzero R RS) (orientation R RS (wall_dx a sgn))).
+      wall_ok a rho v P (vset R a (vzero R RS) (orientation R RS (wall_dx a sgn))).
 
     Lemma reflective_face_no_mass_energy (st : rstate) a sgn c :
       (0 <= a <= 2)%Z -> wall_admissible (st c) a sgn ->
       get5 R 0 (face_flux st (Boundary a sgn c)) = 0 /\ get5 R 4 (face_flux st (Boundary a sgn c)) = 0.
     Proof.
-      intros Ha Hw. unfold face_flux, ghost_flux. rewrite Hreflective. fold (wall_dx a sgn).
+      intros Ha Hw. unfold face_flux, ghost_flux, ghost_flux_ff. rewrite Hreflective. fold (wall_dx a sgn).
       unfold wall_admissible in Hw.
       destruct (reflective_ghost_input a (st c) (wall_dx a sgn) Ha) as [vL E]. rewrite E in *.
       pose proof (riemann_mirror a _ _ _ _ Ha Hw) as Hm. cbv zeta in Hm.
@@ -432,12 +432,9 @@ Section FloatClamp.
   Variable cst : Z -> Z -> float.
   Let FS := FOps pw cst.
 
-  (* for every non-NaN argument the clamp returns a value >= 0 (finiteness is NOT claimed: +infinity passes) *)
-  Lemma f_clamp_nonneg (x : float) : PrimFloat.is_nan x = false -> PrimFloat.leb 0 (smax FS x 0%float) = true.
+  Lemma f_not_lt_zero_ge (x : float) : PrimFloat.ltb x 0 = false -> PrimFloat.is_nan x = false -> PrimFloat.leb 0 x = true.
   Proof.
-    intros Hn. unfold smax. cbn [sltb FS FOps].
-    destruct (PrimFloat.ltb x 0) eqn:E; [reflexivity|].
-    rewrite ltb_spec in E. rewrite leb_spec. unfold PrimFloat.is_nan in Hn. rewrite eqb_spec in Hn.
+    intros E Hn. rewrite ltb_spec in E. rewrite leb_spec. unfold PrimFloat.is_nan in Hn. rewrite eqb_spec in Hn.
     replace (Prim2SF 0%float) with (S754_zero false) in * by reflexivity.
     destruct (Prim2SF x) as [s|s| |s m e].
     - reflexivity.
@@ -446,24 +443,166 @@ Section FloatClamp.
     - destruct s; [discriminate E|reflexivity].
   Qed.
 
+  (* for every non-NaN argument the clamp returns a value >= 0 (finiteness is NOT claimed: +infinity passes) *)
+  Lemma f_clamp_nonneg (x : float) : PrimFloat.is_nan x = false -> PrimFloat.leb 0 (smax FS x 0%float) = true.
+  Proof.
+    intros Hn. unfold smax. cbn [sltb FS FOps].
+    destruct (PrimFloat.ltb x 0) eqn:E; [reflexivity|]. apply f_not_lt_zero_ge; assumption.
+  Qed.
+
   (* ... and a NaN goes through the clamp: (NaN < 0.) is false, so std::max(NaN, 0.) is NaN *)
   Lemma f_clamp_nan : PrimFloat.is_nan (smax FS nan 0%float) = true.
   Proof. reflexivity. Qed.
 
-  (* after update_conserved_variables the mass and the energy of a cell are >= 0 unless they are NaN *)
+  (* whatever goes in: what comes out of the clamp is >= 0 unless it is NaN *)
+  Lemma f_clamp_nonneg_or_nan (x : float) :
+    PrimFloat.is_nan (smax FS x 0%float) = false -> PrimFloat.leb 0 (smax FS x 0%float) = true.
+  Proof.
+    unfold smax. cbn [sltb FS FOps]. destruct (PrimFloat.ltb x 0) eqn:E; [reflexivity|].
+    intros H. apply f_not_lt_zero_ge; assumption.
+  Qed.
+
+  (* after update_conserved_variables the mass and the energy of a cell are >= 0 unless they are NaN;
+     after set_primitive_variables the same for density and pressure *)
   Lemma f_update_nonneg_or_nan (dblmax : float) (c : cell float) (dt : float) :
     let c' := update_conserved float FS dblmax c dt in
     (PrimFloat.is_nan (c0 float (cons float c')) = false -> PrimFloat.leb 0 (c0 float (cons float c')) = true)
     /\ (PrimFloat.is_nan (c4 float (cons float c')) = false -> PrimFloat.leb 0 (c4 float (cons float c')) = true).
+  Proof. unfold update_conserved. cbn [cons c0 c4]. split; apply f_clamp_nonneg_or_nan. Qed.
+
+  Lemma f_set_primitive_nonneg_or_nan g maxv pcf T xH (c : cell float) invvol :
+    let c' := set_primitive float FS g maxv pcf T xH c invvol in
+    (PrimFloat.is_nan (c0 float (prim float c')) = false -> PrimFloat.leb 0 (c0 float (prim float c')) = true)
+    /\ (PrimFloat.is_nan (c4 float (prim float c')) = false -> PrimFloat.leb 0 (c4 float (prim float c')) = true).
   Proof.
-    assert (G : forall x, PrimFloat.is_nan (smax FS x 0%float) = false -> PrimFloat.leb 0 (smax FS x 0%float) = true).
-    { intros x H. apply f_clamp_nonneg. unfold smax in H. cbn [sltb FS FOps] in H.
-      destruct (PrimFloat.ltb x 0) eqn:E; [|exact H].
-      (* x < 0 implies x is not NaN *)
-      rewrite ltb_spec in E. unfold PrimFloat.is_nan. rewrite eqb_spec.
-      replace (Prim2SF 0%float) with (S754_zero false) in E by reflexivity.
-      destruct (Prim2SF x) as [s|s| |s m e]; try reflexivity; try discriminate E.
-      cbn. unfold SFeqb, SFcompare. destruct s; rewrite Z.compare_refl, Pos.compare_cont_refl; reflexivity. }
-    unfold update_conserved. cbn [cons c0 c4]. split; apply G.
+    unfold set_primitive.
+    destruct (sltb FS (s0 FS) (c0 float (cons float c))); [|cbn [prim c0 c4]; split; reflexivity].
+    destruct (negb (sisinf FS (sdiv FS (s1 FS) (c0 float (cons float c))))); [|cbn [prim c0 c4]; split; reflexivity].
+    cbn [prim c0 c4]. split; apply f_clamp_nonneg_or_nan.
   Qed.
 End FloatClamp.
+
+(* ---------------- composition with faces_once: the sweeps of ANY layout ---------------- *)
+Section Layouts.
+  Variable eps gfloor dblmax : R.
+  Let RS := ROps eps gfloor.
+  Variable riemann : R -> vec R -> R -> R -> vec R -> R -> vec R -> flux R.
+  Variable gamma : R.
+  Variables dxs As : vec R.
+  Variable dt : R.
+
+  Definition all_cells (L : layout) : list Z := range (NX L * NY L * NZ L).
+
+  Lemma in_global_faces_canonical L f : wf_layout L -> In f (global_faces L) -> In f (canonical_faces L).
+  Proof. intros Hwf H. eapply Permutation_in; [apply faces_once; exact Hwf|exact H]. Qed.
+
+  (* in a fully periodic box every visit of the sweeps is an interior face between two cells of the box *)
+  Lemma periodic_faces_interior L :
+    wf_layout L -> px L = true -> py L = true -> pz L = true -> Forall (interior_in (all_cells L)) (global_faces L).
+  Proof.
+    intros Hwf Hx Hy Hz. apply Forall_forall. intros f Hf. apply in_global_faces_canonical in Hf; [|exact Hwf].
+    pose proof (canonical_faces_cells_in_range L Hwf f Hf) as Hr.
+    destruct f as [a l r|a sgn c].
+    - unfold interior_in, all_cells. rewrite !in_range. exact Hr.
+    - exfalso. exact (canonical_periodic_no_boundary L Hx Hy Hz a sgn c Hf).
+  Qed.
+
+  (* C04 periodic_step_conserves: in a periodic box without source terms, on ANY subgrid layout, the flux phase driven by
+     the sweeps' face lists followed by the conserved update leaves the totals of the five conserved variables unchanged
+     as long as no positivity clamp fires; for ANY Riemann function *)
+  Theorem periodic_step_conserves L bkind k (st : state R) :
+    wf_layout L -> px L = true -> py L = true -> pz L = true ->
+    (forall j, In j (all_cells L) -> dcons R (st j) = zero5 R RS /\ no_source eps gfloor (st j)) ->
+    (forall j, In j (all_cells L) -> no_clamp dt (flux_phase R RS riemann gamma bkind dxs As dt (global_faces L) st j)) ->
+    total R RS (cproj k) (all_cells L) (update_phase R RS dblmax dt (flux_phase R RS riemann gamma bkind dxs As dt (global_faces L) st))
+    = total R RS (cproj k) (all_cells L) st.
+  Proof.
+    intros Hwf Hx Hy Hz H0 Hnc.
+    apply step_conserves_generic; try assumption.
+    - apply NoDup_range.
+    - apply periodic_faces_interior; assumption.
+  Qed.
+
+  (* the same with reflecting walls on the non-periodic box faces, for mass (k = 0) and energy (k = 4), given a Riemann
+     function that exchanges no mass and no energy between mirror states admitted by [wall_ok] *)
+  Theorem reflective_step_conserves_mass_energy (wall_ok : Z -> R -> vec R -> R -> vec R -> Prop) L k (st : state R) :
+    (forall i rho v P n, (0 <= i <= 2)%Z -> wall_ok i rho v P n ->
+       let Fl := riemann rho v P rho (mirror_vec i v) P n in fst (fst Fl) = 0 /\ snd Fl = 0) ->
+    wf_layout L -> (k = 0 \/ k = 4)%Z ->
+    (forall a sgn c, In (Boundary a sgn c) (canonical_faces L) -> wall_admissible eps gfloor dxs wall_ok (st c) a sgn) ->
+    (forall j, In j (all_cells L) -> dcons R (st j) = zero5 R RS /\ no_source eps gfloor (st j)) ->
+    (forall j, In j (all_cells L) -> no_clamp dt (flux_phase R RS riemann gamma 2 dxs As dt (global_faces L) st j)) ->
+    total R RS (cproj k) (all_cells L) (update_phase R RS dblmax dt (flux_phase R RS riemann gamma 2 dxs As dt (global_faces L) st))
+    = total R RS (cproj k) (all_cells L) st.
+  Proof.
+    intros Hm Hwf Hk Hw H0 Hnc.
+    apply (reflective_step_conserves_generic eps gfloor dblmax riemann gamma 2 dxs As dt wall_ok Hm eq_refl); try assumption.
+    - apply NoDup_range.
+    - apply Forall_forall. intros f Hf. apply in_global_faces_canonical in Hf; [|exact Hwf].
+      pose proof (canonical_faces_cells_in_range L Hwf f Hf) as Hr.
+      destruct f as [a l r|a sgn c]; unfold face_ok, all_cells.
+      + rewrite !in_range. exact Hr.
+      + rewrite in_range. split; [exact Hr|]. split; [|apply Hw; exact Hf].
+        apply (canonical_faces_spec_boundary L Hwf) in Hf. destruct Hf as (X & Y & W & _ & _ & _ & _ & [H|[H|H]]); lia.
+  Qed.
+End Layouts.
+
+(* ---------------- the mirror hypothesis holds for the model of the HLLC solver (C05) ---------------- *)
+Local Open Scope R_scope.
+Section HLLCWall.
+  Variable gfloor gamma : R.
+  Let RS := ROps 0 gfloor.
+  Let c := mk_consts R RS gamma.
+
+  (* the Riemann function Hydro uses: HLLCRiemannSolver::solve_for_flux(..., normal) with the face at rest *)
+  Definition hllc_riemann (rhoL : R) (uL : vec R) (PL rhoR : R) (uR : vec R) (PR : R) (n : vec R) : flux R :=
+    hllc_flux R RS c false false rhoL uL PL rhoR uR PR n (vzero R RS).
+
+  (* wall state admitted: positive density and pressure, outward unit normal along axis i, normal velocity vn towards the
+     wall below 1.5 sound speeds and not receding fast enough to open a vacuum *)
+  Definition hllc_wall_ok (i : Z) (rho : R) (v : vec R) (P : R) (n : vec R) : Prop :=
+    0 < rho /\ 0 < P /\ (exists o, (o = 1 \/ o = -1) /\ n = vset R i (vzero R RS) o) /\
+    let a := R_sqrt.sqrt (gamma * P / rho) in let vn := vdot R RS v n in
+    - (2 / (gamma - 1) * a) < vn < 3 / 2 * a.
+
+  Lemma hllc_wall_mirror : 1 < gamma -> gfloor <= gamma ->
+    forall i rho v P n, (0 <= i <= 2)%Z -> hllc_wall_ok i rho v P n ->
+    let Fl := hllc_riemann rho v P rho (mirror_vec i v) P n in fst (fst Fl) = 0 /\ snd Fl = 0.
+  Proof.
+    intros Hg Hfl i rho v P n Hi (Hrho & HP & (o & Ho & Hn) & Hv). cbv zeta in Hv |- *.
+    destruct (mk_consts_spec gfloor gamma Hfl ltac:(lra)) as (Kg & Kq & Kt & _). fold RS in Kg, Kq, Kt. fold c in Kg, Kq, Kt.
+    assert (Hquot : 0 < gamma * P / rho) by (apply Rdiv_lt_0_compat; [nra|lra]).
+    set (a := R_sqrt.sqrt (gamma * P / rho)) in *.
+    assert (Ha : 0 < a) by (apply sqrt_lt_R0; exact Hquot).
+    assert (Haa : a * a = gamma * P / rho) by (apply sqrt_sqrt; lra).
+    set (vn := vdot R RS v n) in *.
+    unfold hllc_riemann, hllc_flux, hllc_flux_b.
+    cbn [sdiv sadd s1 sdblmin RS ROps].
+    replace (1 / (rho + 0)) with (/ rho) by (field; lra). replace (1 / (P + 0)) with (/ P) by (field; lra).
+    assert (Hvac : is_vacuum R RS rho P (/ rho) (/ P) = false).
+    { unfold is_vacuum. cbn [seqb sisinf s0 RS ROps]. 
+      destruct (Reqb rho 0) eqn:E1; [apply Reqb_true in E1; lra|].
+      destruct (Reqb P 0) eqn:E2; [apply Reqb_true in E2; lra|]. reflexivity. }
+    rewrite Hvac. cbn [andb orb].
+    assert (HaL : ssqrt RS (smul RS (smul RS (gam R c) P) (/ rho)) = a).
+    { cbn [ssqrt smul RS ROps]. rewrite Kg. unfold a. f_equal. }
+    rewrite HaL.
+    assert (HvL : vdot R RS (vsub R RS v (vzero R RS)) n = vn).
+    { unfold vn. destruct v as [[v1 v2] v3], n as [[n1 n2] n3]. unfold vdot, vsub, vzero, mkv, vx, vy, vz. cbn. ring. }
+    assert (HvR : vdot R RS (vsub R RS (mirror_vec i v) (vzero R RS)) n = - vn).
+    { unfold vn. rewrite Hn. destruct v as [[v1 v2] v3]. assert (Hc : i = 0%Z \/ i = 1%Z \/ i = 2%Z) by lia.
+      destruct Hc as [ -> | [ -> | -> ] ]; unfold mirror_vec, vdot, vsub, vzero, vset, vget, mkv, vx, vy, vz; cbn; ring. }
+    rewrite HvL, HvR.
+    assert (Hbr : sleb RS (smul RS (tdgm1 R c) (a + a)) (ssub RS (- vn) vn) = false).
+    { cbn [sleb smul ssub RS ROps]. apply Rleb_false. rewrite Kt. lra. }
+    rewrite Hbr.
+    pose proof (hllc_mirror gfloor c rho (vsub R RS v (vzero R RS)) (vsub R RS (mirror_vec i v) (vzero R RS)) P vn a n gamma
+                  Hrho HP Ha Haa Hg Kq ltac:(lra)) as Hm. cbv zeta in Hm. fold RS in Hm.
+    cbn [fst].
+    destruct (fst (hllc_star R RS c false rho (vsub R RS v (vzero R RS)) P vn a (/ rho) (/ P) rho
+                    (vsub R RS (mirror_vec i v) (vzero R RS)) P (- vn) a (/ rho) (/ P) n)) as [[m p] e].
+    cbn [fst snd] in Hm. destruct Hm as [-> ->].
+    unfold deboost. cbn [fst snd]. split; [reflexivity|].
+    destruct p as [[p1 p2] p3]. unfold vdot, vnorm2, vzero, mkv, vx, vy, vz. cbn. ring.
+  Qed.
+End HLLCWall.
